@@ -143,6 +143,11 @@ Theorem C04_model_meets_spec : forall c,
 Proof. exact model_meets_spec. Qed.
 Print Assumptions C04_model_meets_spec.
 
+Example C04_example_valid :
+  valid_request mixed_case = true /\ storage_complete mixed_case = true /\ c_mut mixed_case = MNone
+  /\ (exists d, denote_run sym_body (c_funcs mixed_case) (c_inputs mixed_case) (c_internal mixed_case) = Ok d).
+Proof. exact mixed_case_valid. Qed.
+
 (* ---------------------------------------------------------------------------------------------------------- *)
 (* 4. The persist protocol of shared_memory_dict BEFORE the repair (the DictProxy itself was pickled: FS content
       ProxyHandle) violates the property in a fresh interpreter; the legacy model reproduces the observation recorded from
